@@ -1,5 +1,11 @@
 package dagaz
 
+import "sync"
+
 type State struct {
+	// Guards SpatialPartition: the state is shared by every participant of
+	// the session.
+	mutex sync.RWMutex
+
 	SpatialPartition SpatialPartition
 }
